@@ -69,9 +69,16 @@ def step (st : St) (line : String) : St × String :=
       let cfg := st.cfg
       let w0 := { st.world with log := [] }
       let (w', o) := Redis.step cfg w0 op
+      let idx := (List.range (w'.calls - w0.calls)).map (· + w0.calls)
+      let anyDown := idx.any cfg.down
+      let allDown := !idx.isEmpty && idx.all cfg.down
       let (t', o') := Ref.step cfg st.ref op
-      ({ st with world := w', ref := t' },
-        s!"model={showOut o} spec={showOut o'} wire={"|".intercalate (w'.log.map showReq)} calls={w'.calls}")
+      -- after a connection fault the reference restarts from the server's actual keyspace
+      let ref' := if anyDown then w'.srv.ks else t'
+      let spec := if anyDown then "~" else showOut o'
+      let b := fun (x : Bool) => if x then "T" else "F"
+      ({ st with world := w', ref := ref' },
+        s!"model={showOut o} spec={spec} wire={"|".intercalate (w'.log.map showReq)} calls={w'.calls} anydown={b anyDown} alldown={b allDown} fv={showOut (Ref.failureValue op)}")
   | ["dump"] => (st, s!"stub={dumpKS st.stub.ks} model={dumpKS st.world.srv.ks} spec={dumpKS st.ref}")
   | ["shas"] => (st, s!"unlock={Script.unlock.sha} incr_expire={Script.incrExpire.sha} incr_slice={Script.incrSlice.sha}")
   | _ => (st, "bad-op")
